@@ -281,19 +281,32 @@ def hdrcount(pid):
                     if not any(row["start"] in a for a in args):
                         continue
                     n += 1
+                    fixes = []
                     if "header_word" in row:
-                        fixes = [c2 for c2 in v.calls.values() if c2.name.endswith("seek_within_header") and len(c2.term["args"]) > 1 and pr.operand(c2.term["args"][1]) == "const:%d" % row["header_word"]]
-                    else:
-                        fixes = [c2 for c2 in v.calls.values() if re.search(row["via"], c2.name)]
+                        fixes += [c2 for c2 in v.calls.values() if c2.name.endswith("seek_within_header") and len(c2.term["args"]) > 1 and pr.operand(c2.term["args"][1]) == "const:%d" % row["header_word"]]
+                    if "via" in row:
+                        fixes += [c2 for c2 in v.calls.values() if re.search(row["via"], c2.name)]
                     oks = set()
                     for c2 in fixes:
                         oks.update(v.ok_nodes(c2.bb) or [("t", c2.bb)])
+                    if row.get("exempt_when"):
+                        # the format version that has no such header word
+                        g = _guards(ctx, f)
+                        for b_, blk_ in enumerate(f.blocks):
+                            if blk_["cleanup"] or blk_["term"]["t"] != "switch":
+                                continue
+                            tt = blk_["term"]
+                            vals_ = [str(x) for x, _ in tt["arms"]] + ["otherwise"]
+                            tg_ = [b for _, b in tt["arms"]] + [tt["otherwise"]]
+                            for val_, tgt_ in zip(vals_, tg_):
+                                if any(re.search(row["exempt_when"], a_) for a_ in g.describe_all(b_, val_, vals_)):
+                                    oks.update(v.pg.edge_node(b_, tgt_))
                     starts = v.ok_nodes(bb) or list(v.pg.succ[("t", bb)])
                     reach = v.pg.reach(starts, oks | set(v.all_err_nodes()))
                     key = "R-HDRCOUNT/%s/%s/%s" % (f.path, row["what"], c.name.split("::")[-1])
                     if any(r in reach for r in v.pg.returns()):
                         res.fail(Finding(res.rule, key + "/count-not-rewritten", "%s changes the length of the %s chain and the function can return Ok without rewriting the header's %s count (%s): the byte image no longer reopens in strict mode" % (
-                            c.name.split("::")[-1], row["what"], row["what"], ("header word %d" % row["header_word"]) if "header_word" in row else row["via"].rstrip("$")), f, c.term["span"]))
+                            c.name.split("::")[-1], row["what"], row["what"], row["via"].rstrip("$") if "via" in row else ("header word %d" % row["header_word"])), f, c.term["span"]))
                     else:
                         res.ok({"function": f.path, "chain": row["what"], "resized_by": c.name.split("::")[-1], "line": c.line, "count_rewritten_at": sorted(x.line for x in fixes)}, nontrivial=True)
         res.floor("counted-chain resize sites", n, ctx.table("floors").get("hdrcount_sites", 0))
@@ -840,5 +853,187 @@ def ceil(pid):
                         res.fail(Finding(res.rule, key + "/floor-plus-one", "%s counts units as floor(%s / %s) + 1 with no test of the remainder: for an exact multiple this is one unit too many (a sector kept with its old bytes after a shrink, or a header count that disagrees with the chain)" % (f.path.split("::")[-1], x[:50], y[:40]), f, st["span"]))
         res.floor("floor+1 expressions", n, 0)
         res.notes.append("expected count on the reference tree: 0; positive examples: kept seeds C08-5 (Chain::set_len) and C02-5")
+        return res
+    return run
+
+
+# ---------------------------------------------------------------------------
+def dirlen(pid):
+    """R-DIRLEN: the in-memory entry table has exactly one element per slot of the directory chain; allocate_dir_entry
+    decides from `dir_entries.len() % entries_per_sector` whether the chain needs another sector, and slot ids are
+    indices into both.  Nothing ever shortens the table."""
+    def run(ctx):
+        res = RuleResult("R-DIRLEN(%s)" % pid, "self.dir_entries is never shortened (pop, truncate, clear, remove, swap_remove, drain, split_off, retain)")
+        n = 0
+        shrink = ("pop", "truncate", "clear", "remove", "swap_remove", "drain", "split_off", "retain", "dedup")
+        for f in ctx.fx.fns.values():
+            v = view(ctx, f)
+            pr = None
+            for bb, c in sorted(v.calls.items()):
+                short = c.name.split("::")[-1]
+                if short not in shrink or "Vec" not in c.name or not c.term["args"]:
+                    continue
+                pr = pr or Prov(f)
+                if not pr.operand(c.term["args"][0]).endswith(".dir_entries"):
+                    continue
+                n += 1
+                res.fail(Finding(res.rule, "R-DIRLEN/%s/%s" % (f.path, short), "%s shortens the entry table with Vec::%s: the table no longer has one element per slot of the directory chain, so allocate_dir_entry extends the chain although it has room (a sector is appended per cycle) or slot ids stop matching file offsets" % (f.path.split("::")[-1], short), f, c.term["span"]))
+        res.floor("table shortenings", n, 0)
+        res.notes.append("expected count on the reference tree: 0; positive example: kept seed C15-6")
+        return res
+    return run
+
+
+def namelen(pid):
+    """R-NAMELEN: reader/writer agreement on the name-length field: DirEntry::write_to stores (units + 1) * 2 for a
+    name of up to MAX_NAME_LEN units, so the reader's 'too large' refusal must not start below (MAX_NAME_LEN + 1) * 2."""
+    def run(ctx):
+        res = RuleResult("R-NAMELEN(%s)" % pid, "DirEntry::read_from accepts every name-length value that DirEntry::write_to can produce for a valid name: its upper limit is at least (MAX_NAME_LEN + 1) * 2")
+        f = ctx.fx.fns.get("internal::direntry::DirEntry::read_from")
+        n = 0
+        if f is None:
+            res.gone.append("DirEntry::read_from")
+            return res
+        maxname = None
+        for cp, cv in ctx.fx.consts.items():
+            if cp.endswith("::MAX_NAME_LEN"):
+                maxname = cv
+        need = (maxname + 1) * 2 if maxname is not None else 64
+        g = _guards(ctx, f)
+
+        def ev(x):
+            x = x.strip()
+            m = re.match(r"^const:(\d+)$", x)
+            if m:
+                return int(m.group(1))
+            m = re.match(r"^const:(?:\w+::)*(\w+)$", x)
+            if m:
+                for cp, cv in ctx.fx.consts.items():
+                    if cp.split("::")[-1] == m.group(1):
+                        return cv
+                return None
+            m = re.match(r"^(Mul|Add|Sub)\((.*)\)$", x)
+            if m:
+                from prov import _split_top
+                parts = _split_top(m.group(2))
+                if len(parts) == 2:
+                    a, b = ev(parts[0]), ev(parts[1])
+                    if a is not None and b is not None:
+                        return a * b if m.group(1) == "Mul" else (a + b if m.group(1) == "Add" else a - b)
+            m = re.match(r"^cast\((.*)\)$", x)
+            if m:
+                return ev(m.group(1))
+            return None
+        from rules_api import refusals
+        for (c, kind) in refusals(ctx, f):
+            for a in g.atoms_at(("t", c.bb)):
+                m = re.match(r"^\(Gt\((?:cast\()?ok\(ReadLeNumber::read_le_u16\(param:reader\)\)\)?,(.*)\)\)$", a)
+                if not m:
+                    continue
+                lim = ev(m.group(1))
+                if lim is None:
+                    continue
+                n += 1
+                key = "R-NAMELEN/%s" % f.path
+                if lim >= need:
+                    res.ok({"function": f.path, "refuses_above": lim, "writer_maximum": need}, nontrivial=True)
+                else:
+                    res.fail(Finding(res.rule, key + "/limit-below-writer-maximum", "the reader refuses name lengths above %d, but the writer stores (units + 1) * 2 = %d for a valid name of MAX_NAME_LEN = %s units: a file this library wrote itself can no longer be opened" % (lim, need, maxname), f, c.term["span"]))
+                break
+        res.floor("name-length limits", min(n, 1), ctx.table("floors").get("namelen_sites", 0))
+        return res
+    return run
+
+
+def nameinv(pid):
+    """R-NAMEINV (invariant I-NAMES): DirEntry::write_to asserts that the entry's name passes validate_name, and every
+    metadata update, flush and re-link rewrites entries that came from the file.  So DirEntry::read_from must not
+    return Ok with a name that did not pass validate_name in every mode - except the root's, which is either equal to
+    the constant root name or replaced by it."""
+    def run(ctx):
+        res = RuleResult("R-NAMEINV(%s)" % pid, "every Ok return of DirEntry::read_from lies behind the Ok outcome of validate_name(name), a comparison that found the name equal to the constant root name, or its replacement by that constant")
+        f = ctx.fx.fns.get("internal::direntry::DirEntry::read_from")
+        if f is None:
+            res.gone.append("DirEntry::read_from")
+            return res
+        v = view(ctx, f)
+        pg = v.pg
+        g = _guards(ctx, f)
+        pr = Prov(f)
+        barriers = set()
+        nval = 0
+        for bb, c in sorted(v.calls.items()):
+            if re.search(r"path::validate_name$", c.name) and v.disp(bb)["kind"] in ("try", "matched"):
+                barriers.update(v.ok_nodes(bb))
+                nval += 1
+            # `name = <constant>.to_string()` and the like: a call whose result is stored in `name` and whose
+            # arguments are constants only
+            t = c.term
+            if c.kind == "call" and not t["dest"]["proj"] and f.debug_names().get(t["dest"]["local"]) == "name" and t["args"] and all(re.match(r"^const:", pr.operand(a)) for a in t["args"]):
+                barriers.add(("t", bb))
+        from rules_sink import _edge_label
+        names = f.debug_names()
+        for b, blk in enumerate(f.blocks):
+            if blk["cleanup"]:
+                continue
+            for i, st in enumerate(blk["stmts"]):
+                if st["s"] == "assign" and not st["place"]["proj"] and names.get(st["place"]["local"]) == "name":
+                    if re.match(r"^[^()]*\(const:[^()]*\)$", pr._def((b, i, st), 0, ())):
+                        barriers.add(("s", b, i))
+            if blk["term"]["t"] != "switch":
+                continue
+            for k, tgt in enumerate(f.succ(b)):
+                val, vals = _edge_label(f, b, k)
+                for a in g.describe_all(b, val, vals):
+                    if re.match(r"^(!\(Ne|\(Eq)\(var:name,const:(\w+::)*ROOT_DIR_NAME\)\)$", a):
+                        barriers.update(pg.edge_node(b, tgt))
+        oks = []
+        for bb, blk in enumerate(f.blocks):
+            if blk["cleanup"]:
+                continue
+            for i, st in enumerate(blk["stmts"]):
+                if st["s"] == "assign" and st["place"]["local"] == 0 and not st["place"]["proj"] and st["rv"]["r"] == "aggregate" and st["rv"].get("variant") == "Ok":
+                    oks.append((("s", bb, i), st))
+        reach = pg.reach([pg.entry()], barriers)
+        for (node, st) in oks:
+            if node in reach:
+                path = pg.path(pg.entry(), [node], barriers) or []
+                lines = []
+                for n in path:
+                    if n[0] == "e":
+                        ln = f.blocks[n[1]]["term"]["span"]["line"]
+                        if not lines or lines[-1] != ln:
+                            lines.append(ln)
+                res.fail(Finding(res.rule, "R-NAMEINV/%s/ok-without-validated-name" % f.path, "read_from can return Ok with a name that neither passed validate_name nor is the constant root name (branch lines %s): DirEntry::write_to asserts validate_name(name).is_ok(), so the first metadata update, flush or re-link that rewrites this entry panics" % ", ".join(str(x) for x in [l_ for l_ in lines if l_ > 1][:10]), f, st["span"]))
+            else:
+                res.ok({"function": f.path, "ok_return_line": st["span"]["line"], "validate_name_calls": nval, "barrier_nodes": len(barriers)}, nontrivial=True)
+        res.floor("Ok returns of read_from", len(oks), ctx.table("floors").get("nameinv_oks", 0))
+        res.floor("validate_name calls in read_from", nval, ctx.table("floors").get("nameinv_validate", 0))
+        return res
+    return run
+
+
+def hdrv3(pid):
+    """R-HDRV3: header word 40 (number of directory sectors) exists in version 4 only; MS-CFB 2.2 requires it to be
+    zero in version 3 and strict open refuses anything else.  So whoever rewrites it in place asks for the version."""
+    def run(ctx):
+        res = RuleResult("R-HDRV3(%s)" % pid, "every in-place rewrite of header word 40 (directory sector count) lies on a branch that established version 4")
+        n = 0
+        for f in ctx.fx.fns.values():
+            v = view(ctx, f)
+            pr = None
+            for bb, c in sorted(v.calls.items()):
+                if not c.name.endswith("seek_within_header") or len(c.term["args"]) < 2:
+                    continue
+                pr = pr or Prov(f)
+                if pr.operand(c.term["args"][1]) != "const:40":
+                    continue
+                n += 1
+                atoms = _guards(ctx, f).atoms_at(("t", bb))
+                if any(re.search(r" is (Version::V4|not Version::V3)$", a) for a in atoms):
+                    res.ok({"function": f.path, "line": c.line, "guard": [a for a in atoms if "Version::" in a][:1]}, nontrivial=True)
+                else:
+                    res.fail(Finding(res.rule, "R-HDRV3/%s/word-40-written-for-any-version" % f.path, "%s rewrites header word 40 (directory sector count) without having established version 4: in a version 3 file the word must stay zero, and strict open refuses the image once the directory grows a second sector" % f.path.split("::")[-1], f, c.term["span"]))
+        res.floor("rewrites of header word 40", n, ctx.table("floors").get("hdrv3_sites", 0))
         return res
     return run
